@@ -34,6 +34,7 @@ struct Printer {
       case K_PI: t("pi"); break;
       case K_INF: t("oo"); break;
       case K_ITV: t("["); ex(e->a[0], 1); t(","); ex(e->a[1], 1); t("]"); break;
+      case K_BALL: t("<"); ex(e->a[0], 1); t(","); ex(e->a[1], 1); t(">"); break;
       case K_SYM: t(e->name); break;
       case K_NEG: t("-"); ex(e->a[0], 2); break;
       case K_ADD: ex(e->a[0], 1); t("+"); ex(e->a[1], 2); break;
@@ -197,6 +198,9 @@ struct SysGen {
     if (!c.empty() && r.coin(40)) return mksym(c[r.below(c.size())]->name);
     if (rows == 1 && cols == 1) {
       if (r.coin(8)) { EP a = lit(), b = mk(K_ADD, {a, lit(false)}); return mk(K_ITV, {a, b}); }      // thick constant [a, a+b]
+      if (r.coin(5)) { // ball constant <c,r> with a radius that is (often) not a binary64 number: 1/3, pi/4, k/10
+        EP rad; switch (r.below(4)) { case 0: rad = mk(K_DIV, {lit_int(1), lit_int(r.range(3, 7))}); break; case 1: rad = mk(K_DIV, {mk(K_PI), lit_int(r.range(2, 5))}); break; case 2: rad = lit_int(r.range(0, 3)); break; default: rad = mk(K_DIV, {lit_int(r.range(1, 9)), lit_int(10)}); }
+        return mk(K_BALL, {lit(), rad}); }
       std::vector<const SymI*> its; for (auto& s : syms) if (s.kind == 'i') its.push_back(&s);
       if (!its.empty() && r.coin(30)) return mksym(its[r.below(its.size())]->name);
       return lit();
